@@ -52,18 +52,18 @@ namespace QP.PT
 open QP.C05
 
 /-- `Loop.applyItems` on a loop without own waveform: the measures go to the loop, the nodes to its children -/
-theorem applyItems_eq (rep : Nat) : ∀ (I : List Item) (meas : List Window) (cs : List Loop),
+theorem applyItems_eqC (rep : Nat) : ∀ (I : List Item) (meas : List Window) (cs : List Loop),
     (Loop.mk rep none meas cs).applyItems I =
       Loop.mk rep none (meas ++ itemsMeas I (Loop.durationList cs)) (cs ++ itemsNodes I)
   | [], meas, cs => by simp [Loop.applyItems, itemsMeas, itemsNodes]
   | .measure ms :: r, meas, cs => by
-      have ih := applyItems_eq rep r (meas ++ ms.map (shiftW (Loop.durationList cs))) cs
+      have ih := applyItems_eqC rep r (meas ++ ms.map (shiftW (Loop.durationList cs))) cs
       simp only [Loop.applyItems, List.foldl_cons] at ih ⊢
       simp only [Loop.applyItem, Loop.rep, Loop.wf, Loop.meas, Loop.children, bodyDuration_none]
       rw [ih]
       simp [itemsMeas, itemsNodes]
   | .node l :: r, meas, cs => by
-      have ih := applyItems_eq rep r meas (cs ++ [l])
+      have ih := applyItems_eqC rep r meas (cs ++ [l])
       simp only [Loop.applyItems, List.foldl_cons] at ih ⊢
       simp only [Loop.applyItem, Loop.rep, Loop.wf, Loop.meas, Loop.children]
       rw [ih]
@@ -82,7 +82,7 @@ def rootOf (I : List Item) : Loop := Loop.mk 1 none (itemsMeas I 0) (itemsNodes 
 theorem toProgram_eq (I : List Item) :
     toProgram I = if (itemsNodes I).isEmpty then none else some (rootOf I) := by
   unfold toProgram rootLoop
-  rw [applyItems_eq]
+  rw [applyItems_eqC]
   simp only [Loop.durationList, List.nil_append, Loop.isEmpty, Loop.wf, Loop.children, Option.isNone_none,
     Bool.true_and, rootOf]
 
@@ -699,7 +699,7 @@ theorem rel_one (c : Chan) (T : Chain) (ms : List Window) (l l' : Loop)
 def repLoop (n : Nat) (I : List Item) : Loop := Loop.mk n none (itemsMeas I 0) (itemsNodes I)
 
 theorem applyItems_repLoop (n : Nat) (I : List Item) : (Loop.mk n none [] []).applyItems I = repLoop n I := by
-  rw [applyItems_eq]
+  rw [applyItems_eqC]
   simp [repLoop, Loop.durationList]
 
 theorem repLoop_isEmpty (n : Nat) (I : List Item) : (repLoop n I).isEmpty = (itemsNodes I).isEmpty := by
